@@ -285,6 +285,63 @@ def r17c(P, R):
     R.floor("R17-c", "schema-order iterations in the checker", n, 1)
 
 
+def _untruncated_opens(prog):
+    """OpenOptions chains that open for writing without `truncate(true)` / `create_new(true)` / `append(true)`"""
+    out = []
+    for f in prog.fns.values():
+        if "::tests" in f.path or f.derived:
+            continue
+        for c in f.walk():
+            if c.get("k") == "MethodCall" and (call_name(c) or "").endswith("OpenOptions::open"):
+                names = []
+                e = c["recv"]
+                while isinstance(e, dict) and e.get("k") in ("MethodCall", "AddrOf", "Call"):
+                    if e.get("k") == "MethodCall":
+                        names.append(e["method"])
+                        e = e["recv"]
+                    elif e.get("k") == "AddrOf":
+                        e = e["e"]
+                    else:
+                        break
+                if "write" in names and not ({"truncate", "create_new", "append"} & set(names)):
+                    out.append((f, names))
+    return out
+
+
+def r17d(P, R):
+    """history independence: (1) outputs are written over truncated files; (2) the generating functions keep no state between runs"""
+    from templates import global_state_holders, global_state_uses
+    opens = _untruncated_opens(P)
+    for f, names in opens:
+        R.violated("R17-d", "untruncated-write:%s" % short(f.path), "%s opens an output file with OpenOptions(%s) and no truncation: when the new "
+                   "content is shorter than what a previous run left at that path the old tail survives, so the bytes depend on the directory's "
+                   "history" % (f.path, ", ".join(reversed(names))), loc=f.loc())
+    if not opens:
+        R.holds("R17-d", "untruncated-write:none", "no OpenOptions write without truncate/create_new/append in the workspace")
+    holders = global_state_holders(P)
+    R.floor("R17-d", "global state holders found in the workspace (detector control)", len(holders), 6)
+    entries = [P.fn("graphql_loader::js_printer::print_js"), P.fn("nitrogql_cli::generate::run_generate"), P.fn("nitrogql_cli::check::run_check")]
+    scope = [P.fns[p] for p in P.reachable(entries) if not P.fns[p].derived]
+    ALLOWED = {
+        "nitrogql_ast::current_file::CURRENT_FILE_OF_POS": "set by the caller immediately before each parse (R08-c file-index-source); a pure input of the parse",
+        "nitrogql_config_file::node::NODE_COMMAND_SERVER": "handle of the node helper process (environment, outside the claim)",
+        "nitrogql_async_runtime::RUNTIME": "executor of the node helper calls (environment)",
+        "nitrogql_async_runtime::ticket::TICKETS": "executor bookkeeping (environment)",
+    }
+    bad = 0
+    for f, h, missing, key in global_state_uses(P, scope, holders):
+        if h in ALLOWED:
+            continue
+        bad += 1
+        if missing:
+            R.violated("R17-d", "state:%s" % short(h), "%s stores a value computed from %s in the thread-local/static %s and reuses it for later calls "
+                       "(key: %s): output bytes depend on what the process did before, not only on the project" % (f.path, missing, h, key or "none"), loc=f.loc())
+        else:
+            R.undecided("R17-d", "state:%s" % short(h), "%s uses global state %s; effect on output not decided" % (f.path, h), loc=f.loc())
+    if not bad:
+        R.holds("R17-d", "stateless", "%d functions reachable from generate/check/print_js use only the listed environment holders" % len(scope))
+
+
 def r17pc(P, R):
     """positive controls: the detectors must fire on engine/selfcheck (compiled with the same driver) on every run"""
     from facts import Program
@@ -299,12 +356,19 @@ def r17pc(P, R):
     for k, w in want.items():
         R.check("R17-pc", "control:" + k, got.get(k) == w, "positive control classified %s" % w,
                 "self-check: the hash-iteration classifier returns %r for control `%s` (expected %s): the rule cannot be trusted" % (got.get(k), k, w))
+    from templates import global_state_holders, global_state_uses
+    R.check("R17-pc", "control:untruncated-open", any(f.name == "opens_without_truncate" for f, _ in _untruncated_opens(SC)),
+            "untruncated-open control detected", "self-check: the OpenOptions detector misses the control")
+    sch = global_state_holders(SC)
+    uses = global_state_uses(SC, [f for f in SC.fns.values() if f.name == "memo_once"], sch)
+    R.check("R17-pc", "control:memo", any(m == ["seed"] for _, _, m, _ in uses), "unkeyed-memo control detected (depends on `seed`)",
+            "self-check: the global-state detector reports %s for the memo control" % [(h, m) for _, h, m, _ in uses])
     hits = SC.ext_callers(lambda p: p.startswith(NONDET))
     R.check("R17-pc", "control:time", any(f.name == "now_secs" for f, c, n in hits), "time API control detected",
             "self-check: the time/RNG detector does not see SystemTime::now in the control crate")
 
 
-RULES = [("R17-a", r17a), ("R17-b", r17b), ("R17-c", r17c), ("R17-pc", r17pc)]
+RULES = [("R17-a", r17a), ("R17-b", r17b), ("R17-c", r17c), ("R17-d", r17d), ("R17-pc", r17pc)]
 EXPLANATION = (
     "Hash-seed independence, for all inputs and all seeds: every expression in the workspace that exposes the iteration order "
     "of a std HashMap/HashSet (iter/keys/values/drain/retain/into_iter, for-loops, Debug formatting; resolved by receiver type, "
